@@ -6,7 +6,7 @@
 set -u
 tier="${1:-quick}"
 VSIM="$VERIF_BUILD/target/release/vsim"
-export VERIF_NO_EVIDENCE=1
+export VERIF_NO_EVIDENCE=1 VERIF_SKIP_MIRI=1
 D="$VERIF_DIR/.build/selftest.$$"; mkdir -p "$D"; trap 'rm -rf "$D"' EXIT
 fail=0
 for seed in 20261003 1 987654321; do
